@@ -314,9 +314,14 @@ def load_known_findings():
     return open_, fixed
 
 
+# evidence of runs against something other than /repo (seed / benign evaluation in a scratch worktree) must not overwrite
+# the evidence of the tree under verification
+EVIDENCE_DIR = os.environ.get("XCP_EVIDENCE_DIR") or os.path.join(VERIF, "evidence")
+
+
 def write_evidence(prop, ev):
-    os.makedirs(os.path.join(VERIF, "evidence"), exist_ok=True)
-    p = os.path.join(VERIF, "evidence", prop + ".json")
+    os.makedirs(EVIDENCE_DIR, exist_ok=True)
+    p = os.path.join(EVIDENCE_DIR, prop + ".json")
     tmp = p + ".tmp"
     with open(tmp, "w") as f:
         json.dump(ev, f, indent=1, sort_keys=True)
